@@ -503,7 +503,16 @@ func init() {
 				}
 				explore(sc, b)
 			}
-			rsc, rb := runLoopScenarios(quick, deadline)
+			// the run-loop scenarios come last but keep a budget of their own (quick 90 s, thorough 10 min) when the earlier
+			// scenarios have used up the run's time cap (slow machine, or a change that enlarges their schedule spaces)
+			rdl := time.Now().Add(90 * time.Second)
+			if !quick {
+				rdl = time.Now().Add(10 * time.Minute)
+			}
+			if deadline.After(rdl) {
+				rdl = deadline
+			}
+			rsc, rb := runLoopScenarios(quick, rdl)
 			for i := range rsc {
 				explore(rsc[i], rb[i])
 			}
